@@ -798,7 +798,7 @@ func (e *env) trCall(x *ECall) (Val, XT, error) {
 		case "Str":
 			return app("strlen", v), xtInt, nil
 		case "Bytes":
-			return app("blen", v), xtInt, nil
+			return app("u_blen", v), xtInt, nil
 		}
 		return nil, XT{}, e.errf("len of %s (sort %s)", x.Args[0], xt.S)
 	case "held", "rheld", "anyheld":
@@ -945,6 +945,25 @@ func (e *env) trCall(x *ECall) (Val, XT, error) {
 		fn := "apply_" + sanitize(strings.Join(sorts[1:], "_")) + "_" + res.S
 		g.c.declareFun(fn, sorts, res.S)
 		return app(fn, terms...), res, nil
+	case "sbaseOf":
+		v, _, err := argv(0)
+		if err != nil {
+			return nil, XT{}, err
+		}
+		return app("sbase", v), xtInt, nil
+	case "contentsN":
+		// contentsN(s, n): the contents of s[:n]
+		v, _, err := argv(0)
+		if err != nil {
+			return nil, XT{}, err
+		}
+		nv, _, err := argv(1)
+		if err != nil {
+			return nil, XT{}, err
+		}
+		g.c.declareFun("bsub", []string{"Bytes", "Int", "Int"}, "Bytes")
+		m := g.svGet(e.st, "$bytes", "(Array Int Bytes)")
+		return app("bsub", app("select", m, app("sbase", v)), app("soff", v), nv), XT{S: "Bytes"}, nil
 	case "contents":
 		v, xt, err := argv(0)
 		if err != nil {
